@@ -47,6 +47,12 @@ impl Policy {
 
 thread_local! {
     static POLICY: Cell<Policy> = const { Cell::new(Policy::never()) };
+    /// calls of win_addr_conflict outside its contract (different addresses, or an identity against itself)
+    static CONFLICT_CONTRACT_BREACHES: Cell<u64> = const { Cell::new(0) };
+}
+
+pub fn conflict_contract_breaches() -> u64 {
+    CONFLICT_CONTRACT_BREACHES.with(|c| c.get())
 }
 
 pub fn set_policy(p: Policy) {
@@ -95,6 +101,11 @@ impl Identity for SimId {
         self.addr
     }
     fn win_addr_conflict(&self, adversary: &Self) -> bool {
+        // the bundled SocketAddr identities panic here ("there'll never be a conflict"): foca must only
+        // ask for distinct identities that share an address
+        if self.addr != adversary.addr || self == adversary {
+            CONFLICT_CONTRACT_BREACHES.with(|c| c.set(c.get() + 1));
+        }
         self.gen > adversary.gen
     }
 }
